@@ -319,6 +319,34 @@ def check_unfolded(o, case, new, update_ids, tag, expect=None, path_bars=None):
             for attr in ("start_note", "end_note"):
                 if not inside(getattr(ob, attr)):
                     o.add("reference-leaves-the-copy:%s.%s" % (type(ob).__name__, attr), tag=tag)
+    # ---- references are mutual and point forward in time (a link must never connect a note to the copy made
+    # for another visit: a tie joins a note to the note that starts where it ends; what cannot be kept is cut)
+    for ob in actual_objs:
+        if not isinstance(ob, S.GenericNote):
+            continue
+        nx = getattr(ob, "tie_next", None)
+        if nx is not None and inside(nx):
+            if nx.tie_prev is not ob:
+                o.add("tie-link-not-mutual", tag=tag, id=ob.id, other=nx.id)
+                break
+            if ob.end is not None and nx.start is not None and ob.end.t != nx.start.t:
+                o.add("tie-joins-notes-that-are-not-adjacent", tag=tag, id=ob.id, end=ob.end.t, next_start=nx.start.t)
+                break
+        pv = getattr(ob, "tie_prev", None)
+        if pv is not None and inside(pv):
+            if pv.tie_next is not ob:
+                o.add("tie-link-not-mutual", tag=tag, id=ob.id, other=pv.id)
+                break
+        gn = getattr(ob, "grace_next", None)
+        if gn is not None and inside(gn) and ob.start is not None and gn.start is not None and gn.start.t != ob.start.t:
+            o.add("grace-link-joins-notes-at-different-times", tag=tag, id=ob.id)
+            break
+    for oid, (ps_, pe_, ob) in reg.items():
+        if isinstance(ob, (S.Slur, S.Tuplet)):
+            a_, b_ = ob.start_note, ob.end_note
+            if a_ is not None and b_ is not None and inside(a_) and inside(b_) and a_.start is not None and b_.start is not None and a_.start.t > b_.start.t:
+                o.add("bracket-ends-before-it-starts:" + type(ob).__name__, tag=tag, start=a_.start.t, end=b_.start.t)
+                break
     # ---- references inside one segment visit connect the copies -------------------------------------------
     # seq index of the first bar of the segment visit that contains seq index i
     def partner_index(i, ida, idb):
